@@ -41,3 +41,15 @@ LEVEL_TEXT = ("Machine-checked Coq theorems, unbounded: for every listing, event
               "set incl. the node itself (after repairing F9); per-type / working / name / member indexes equal their specifications for every "
               "member list; every single-reference query under every interleaving is answered from one published view. The model is tied to the "
               "Go code by running both on the same histories each run; reader atomicity on the real code is only measured.")
+
+
+def extra_coverage(cases):
+    """reader atomicity on the real code is a measurement; report it separately"""
+    runs = [c for c in cases if c.get("kind") == "stress-measurement"]
+    ok = sum(1 for c in runs if c["obs"] == [{"BStress": [True]}])
+    pubs = sum(1 for c in cases for o in c["obs"] if isinstance(o, dict) and "BPub" in o)
+    return {"measurement_reader_atomicity": {
+                "label": "measurement, not proof: updater alternating two complete views (400 rounds) against 6 readers "
+                         "calling every getter; each answer must be one an entire view gives",
+                "stress_runs": len(runs), "stress_runs_all_answers_from_one_view": ok},
+            "publications_checked": pubs}
